@@ -436,7 +436,7 @@ func runC09(r *core.Run) {
 	maxd := 3
 	dts := ref.FC4
 	modes := []string{"safe", "reuse", "incr", "reuse+incr", "reuse:T", "incr:T"}
-	lays := append(append([]string{}, atlas.L5...), "Cl") // + the CLONE of a sliced view: strided storage that is not a view
+	lays := atlas.L5 // incl. Cl, the CLONE of a sliced view: strided storage that is not a view
 	vss := []string{"int", "frac"}
 	r.SetBound("dims", fmt.Sprintf("every dimension in 1..%d; rank-3 tensors for TensorMul/Dot", maxd))
 	vecForms := func(n int) [][]int { return [][]int{{n}, {n, 1}, {1, n}} }
